@@ -141,7 +141,7 @@ class Election:
     def postCheck(self):
         "post-election sanity check"
         nElected = len(self.elected)
-        nEligible = len(self.C.eligible())
+        nEligible = len([c for c in self.C.eligible() if self.rule.electsUndeclared or not c.isUndeclared])
         assert(nElected == self.nSeats or
                nElected < self.nSeats and nElected == nEligible)
 
